@@ -313,7 +313,7 @@ PROPS['C13'] = dict(
          '(4..256 ulp of 1 per family), exactly 1 on the core of the compact families incl. degenerate shoulders, S+Z = lins+linz = 1, monotone on each flank for a second point, dispatcher bit-equal; a zero-width ramp may take any '
          'value in [0,1] at its single break point; (b) a pair (and a third value) of membership degrees incl. 0, 1, equal values, denormals: each of the seven operators equals its documented formula (2 ulp, 8 for equ), is commutative '
          'bit for bit, monotone, intersections <= min, unions >= max, boundary cases at 0 and 1, equ between the algebraic product and sum, equ_(1/2)=equ; (c) a fuzzy PID with rule order 2..7, any of the seven operators, membership '
-         'tables generated as ordered partitions (tri with end shoulders as in the repository test, trap, gauss, mixed lins/linz/S/Z/pi/gbell; neighbour overlap 1..2.5 widths), integer consequents, and up to 12 steps with e and ec on '
+         'tables generated as ordered partitions (tri with end shoulders as in the repository test, trap, gauss, mixed lins/linz/S/Z/pi/gbell/gauss2/sig/dsig/psig; neighbour overlap 1..2.5 widths; one table in nine has fewer sets than the order and is closed by the A_MF_NUL entry), integer consequents, and up to 12 steps with e and ec on '
          'set centres, inside, around and far outside the tables: after each step gain - base gain = weighted mean of the consequents of the active rules (weights by the documented formula in double, accumulated in long double), inside '
          '[min,max] of those consequents, finite, and unchanged when no rule is active; the scratch buffer is re-set every step to an exact-size heap block of A_PID_FUZZY_BFUZZ(N) bytes, N = number of simultaneously active sets (ASan). '
          'non-trivial = (a) x within 2 ulp of a break point or a degenerate shoulder, (b) both degrees strictly inside (0,1), (c) >= 2 active sets on both inputs; distinct = hash of decoded parameters',
